@@ -503,11 +503,8 @@ impl VersionedSerializer {
         }
         
         // Check version skew
-        let version_diff = if stored_version > current_version {
-            stored_version.minor() - current_version.minor()
-        } else {
-            current_version.minor() - stored_version.minor()
-        };
+        // (a newer major version may carry a smaller minor number)
+        let version_diff = stored_version.minor().abs_diff(current_version.minor());
         
         if version_diff > self.config.max_version_skew {
             return Err(ZiporaError::invalid_data(
